@@ -6,7 +6,7 @@ from translate import PIN
 LEVEL = "proof"
 MANIFEST = dict(
     text='The quantifier is a finite table (164 modules, ~20 500 items): the kernel evaluates the decidable predicate PackModule.OK (item addressability Item.WF, key resolution, module naming, refresh window) over the WHOLE table regenerated from the working tree (decide +kernel, one obligation per module, assembled into `all_modules_ok`), proves the three known ill-formed items really are ill-formed, and proves every module pinned at the audited commit is present field-for-field (`layout_immutable`). Search: independent Python re-computation of well-formedness, pin diff item by item, FILES-reply naming for all 895 combinations.'
-         ' Since session 3: the EFFECTIVE read footprint of every pinned item is probed through the real read path (all ones / only the pinned field / everything but it). Session 4: the real GeckoAsyncSpa._connect is driven with a scripted FILES reply for every shipped (platform, cfg, log) and must import exactly the shipped modules. Session 5: the layout of a CONNECTED spa - tables instantiated over a block, both facades built and read on several wirings (single-speed / two-speed pumps, nothing, everything) - every live item must still have the layout its module publishes (live-layout).',
+         ' Since session 3: the EFFECTIVE read footprint of every pinned item is probed through the real read path (all ones / only the pinned field / everything but it). Session 4: the real GeckoAsyncSpa._connect is driven with a scripted FILES reply for every shipped (platform, cfg, log) and must import exactly the shipped modules. Session 5: the layout of a CONNECTED spa - tables instantiated over a block, both facades built and read on several wirings (single-speed / two-speed pumps, nothing, everything) - every live item must still have the layout its module publishes (live-layout). Round 15: layout of the live items of blocking sessions (second session per process) against the published layout.',
     note='Trusted: Lean kernel; harness/packs.py extraction by import (what the library sees after accessor __init__) + ast check for duplicate dict keys; pins/layout-236b7b1.json.gz is the layout at the audited commit. The generator input SpaPackStruct.xml is absent: well-formedness is judged on the shipped Python only.',
     technique='Lean 4 kernel evaluation (decide +kernel) of decidable predicates over the complete regenerated tables',
     design='5/C18',
@@ -357,6 +357,41 @@ def search_live_layout(ctx, mods):
     return n
 
 
+def search_blocking_sessions(ctx):
+    """the layout a BLOCKING client ends up with, for a second connection in the same process to a spa of the same platform that reports
+    OTHER table versions (real start_connect handshakes, stepped): the live items are those of the modules the FILES answer names"""
+    import bsessions
+    import glob
+    import os
+    from common import REPO
+    from geckolib.utils.snapshot import GeckoSnapshot
+    by = {}
+    for f in sorted(glob.glob(str(REPO / "tests" / "snapshots" / "*.snapshot"))):
+        try:
+            sn = GeckoSnapshot.parse_log_file(f)
+        except Exception:  # noqa
+            continue
+        if len(sn) == 1:
+            by.setdefault(sn[0].packtype, {}).setdefault((sn[0].config_version, sn[0].log_version), f)
+    n = 0
+    for plat, vers in sorted(by.items()):
+        if len(vers) < 2:
+            continue
+        files = [vers[k] for k in sorted(vers)][:3]
+        for f1, f2 in zip(files, files[1:] + files[:1]):
+            res, _a, _b = bsessions.two_clients(f1, f2, False)
+            n += 1
+            ctx.hist("blocking_sessions", plat)
+            for what, detail in bsessions.judge(res):
+                if what.endswith(":write"):
+                    continue
+                ctx.violation(f"blocking-sessions:{plat}:{what}", {"kind": "blocking-sessions", "first": os.path.basename(f1), "second": os.path.basename(f2)},
+                              "each client's live items are those of the table modules its spa's FILES answer names", detail)
+                return n
+    ctx.cov["blocking_session_pairs"] = n
+    return n
+
+
 def run(ctx):
     st = translate.run(["Packs", "Pinned"])
     ctx.cov["translator"] = st
@@ -374,6 +409,10 @@ def run(ctx):
     search_effective_layout(ctx)
     n = search_files_reply(ctx, mods, names)
     n += search_connect_lookup(ctx, mods)
+    try:
+        n += search_blocking_sessions(ctx)
+    except Exception as e:  # noqa
+        ctx.obligation_broken("harness:blocking-sessions", f"{type(e).__name__}: {e}")
     try:
         n += search_live_layout(ctx, mods)
     except Exception as e:  # noqa
@@ -405,6 +444,8 @@ def replay(inp):
     search_connect_lookup(ctx, mods)
     if inp.get("kind") == "live-layout":
         search_live_layout(ctx, mods)
+    if inp.get("kind") == "blocking-sessions":
+        search_blocking_sessions(ctx)
     for v in ctx.violations:
         if v["input"] == inp:
             return True, v["observed"]
